@@ -63,6 +63,16 @@ def generate(seed: int, tier: str) -> Dict[str, Any]:
         if r.chance(p):
             fams.append(f)
     raw = E.valid_cfg(rng.stream("config"), fams, p=0.4)
+    if r.chance(0.2):
+        # a graph-evolution layer that really evolves within a handful of turns (edges learned, merged, split, promoted from
+        # scratch, on a state the boot hook created): its records end up in the snapshot bodies that must be reproducible
+        world.pop("gel", None)
+        raw["graph"] = {"enabled": True, "coactivation_threshold": 0.0, "observe_top_k": r.choice([3, 64]), "pair_cap_per_obs": 2048,
+                        "update": {"mode": "additive", "alpha": r.choice([0.5, 0.7])}, "decay": {"half_life_turns": 200, "floor": 0.0},
+                        "merge": {"enabled": True, "min_size": 2, "min_avg_w": 0.0}, "split": {"enabled": r.chance(0.5), "weak_edge_thresh": 0.0},
+                        "promotion": {"enabled": r.chance(0.7)}}
+        raw.setdefault("t2", {}).update({"sim_threshold": -1.0, "k_retrieval": r.choice([3, 10])})
+        raw["t2"].pop("tiers", None)
     # TTLs are time-driven by specification: keep them off or effectively infinite here (C05 varies them)
     for path in (["t1", "cache", "ttl_s"], ["t2", "cache", "ttl_s"], ["t4", "cache", "ttl_sec"]):
         cur = raw
